@@ -6,6 +6,7 @@ GW = TObj("Gateway")
 MSG = TObj("Message")
 BUFT = TObj("MessageBuffer")
 GHOST_LOG = ["ghost.wlen", "ghost.wat", "ghost.wdom"]
+GHOST_ALL = GHOST_LOG + ["ghost.wcnt", "ghost.clock_now"]
 
 
 def register(w):
@@ -19,29 +20,26 @@ def register(w):
         wf=False, check_wf=False)
     w.assumed.add("aiomysensors.transport.Transport.write")
 
-    # Gateway.send as seen by the incoming handlers (every internal caller sends set or internal messages).
+    # Gateway.send as used by its callers: the line of a message the codec accepts is written, or a set command
+    # for a sleeping node is parked under its key (C12's trichotomy; discharged on Gateway.send itself by props/C12).
     w.contracts["aiomysensors.gateway.Gateway.send"] = Contract(
         "aiomysensors.gateway.Gateway.send",
         params={"self": GW, "message": MSG, "message_buffer": TBool},
-        requires=[H("cmd-set-or-internal", "message.command == 1 or message.command == 3")],
+        requires=[H("command-in-range", "0 <= message.command and message.command <= 4"),
+                  H("schema-follows-protocol", "self._message_schema.ctx_protocol == self._protocol")],
         pre_lets={
             "key": "key3(message)",
             "buf": "self._message_buffer",
-            "parks_set": "message_buffer and message.command == 1 and message.node_id in self.nodes "
-                         "and self.nodes[message.node_id].sleeping",
-            "parks_int": "message_buffer and message.command == 3",
+            "parks": "message_buffer and message.command == 1 and message.node_id in self.nodes "
+                     "and self.nodes[message.node_id].sleeping",
         },
-        modifies=["self._message_buffer.set_messages[key3(message)]",
-                  "self._message_buffer.internal_messages[key3(message)]"] + GHOST_LOG,
+        modifies=["self._message_buffer.set_messages[key3(message)]"] + GHOST_LOG + ["ghost.wcnt"],
         ensures=[
-            H("send/parked-set", "implies(parks_set, key in buf.set_messages and buf.set_messages[key] is message "
-                                 "and log_unchanged() and unchanged('ghost.wdom') and same_dict(buf.internal_messages))"),
-            H("send/parked-internal", "implies(parks_int, key in buf.internal_messages and buf.internal_messages[key] is message "
-                                      "and log_unchanged() and unchanged('ghost.wdom') and same_dict(buf.set_messages))"),
-            H("send/written", "implies(not parks_set and not parks_int, appended(enc(message)) and wdom_recorded() "
-                              "and same_dict(buf.set_messages, buf.internal_messages))"),
+            P("C12/parked", "implies(parks, key in buf.set_messages and buf.set_messages[key] is message "
+                            "and log_unchanged() and unchanged('ghost.wdom', 'ghost.wcnt'))"),
+            P("C12/written", "implies(not parks, appended(enc(message)) and wdom_recorded() and wcnt_bumped(message) "
+                             "and same_dict(buf.set_messages))"),
         ],
-        raises={"TransportError": [H("send/failed", "log_unchanged() and unchanged('ghost.wdom') "
-                                                    "and same_dict(buf.set_messages, buf.internal_messages) "
-                                                    "and not parks_set and not parks_int")]},
+        raises={"TransportError": [P("C12/failed-nothing-written", "log_unchanged() and unchanged('ghost.wdom', 'ghost.wcnt') "
+                                                                   "and same_dict(buf.set_messages) and not parks")]},
     )
